@@ -36,6 +36,14 @@ func WriteIfChanged(path string, content []byte) error {
 	return os.Rename(tmp, path)
 }
 
+// order: generators that read another generator's output run after it.
+func order(name string) int {
+	if name == "certs" {
+		return 1
+	}
+	return 0
+}
+
 func main() {
 	repo := flag.String("repo", "/repo", "repository working tree")
 	out := flag.String("out", "", "output directory (lean/Gojq/Generated)")
@@ -51,6 +59,8 @@ func main() {
 			names = append(names, n)
 		}
 		sort.Strings(names)
+		// dependencies between generators: `certs` reads the file written by `programs`
+		sort.SliceStable(names, func(i, j int) bool { return order(names[i]) < order(names[j]) })
 	}
 	for _, n := range names {
 		g, ok := generators[n]
